@@ -47,7 +47,11 @@ DefLeaves == <<
   DL("union-branch-struct",  TDUnion("kind", <<"A", "B">>), JObj(<<P("kind", JStr("b")), P("s", JStr("q"))>>), <<DA, DB>>),
   DL("constant-string",      TConst(JStr("x")), NoJ, <<>>),
   DL("constant-integer",     TConst(JInt(2)), NoJ, <<>>),
-  DL("constant-bool",        TConst(JBool(TRUE)), NoJ, <<>>)
+  DL("constant-bool",        TConst(JBool(TRUE)), NoJ, <<>>),
+  \* negative numbers (appended: the ids of the entries above stay what they were): a default must come out exactly,
+  \* whatever sign-dependent conversion (rounding, truncation, unsigned cast) a parser or a jenny applies to it
+  DL("integer-negative",     PlainInt, JInt(-3), <<>>),
+  DL("float-negative",       TNum("float64", NoB, NoB), JNum(-15), <<>>)
 >>
 
 (* -------------------------------- positions ------------------------------ *)
@@ -83,10 +87,29 @@ DFixedList == <<
     DChild, DEnum>>, FALSE)
 >>
 
+(* discriminated unions whose branches are declared in an order that is NOT the sorted order of their discriminator    *)
+(* values (oneOf: [Zebra, Apple]), with two and with three branches; Docs() holds a document of every branch, alone,      *)
+(* in an array and in an optional field. C11: each value must be decoded by the class of ITS branch. (Appended after      *)
+(* the leaf x position entries: earlier ids are unchanged.)                                                                *)
+UZebra == Def("Zebra", TStruct(<<F("kind", TConst(JStr("zebra"))), F("z", PlainInt)>>))
+UApple == Def("Apple", TStruct(<<F("kind", TConst(JStr("apple"))), F("a", PlainStr)>>))
+UMango == Def("Mango", TStruct(<<F("kind", TConst(JStr("mango"))), F("m", TBool), FOpt("om", PlainStr)>>))
+DFixedList2 == <<
+  Fixed("union-unsorted-2", <<
+    Def("Root", TStruct(<<F("du", TDUnion("kind", <<"Zebra", "Apple">>)), F("items", TArr(TDUnion("kind", <<"Zebra", "Apple">>))),
+                          FOpt("one", TDUnion("kind", <<"Zebra", "Apple">>))>>)),
+    UZebra, UApple>>, FALSE),
+  Fixed("union-unsorted-3", <<
+    Def("Root", TStruct(<<F("du", TDUnion("kind", <<"Mango", "Zebra", "Apple">>)), F("items", TArr(TDUnion("kind", <<"Mango", "Zebra", "Apple">>))),
+                          FOpt("byKey", TMap(TDUnion("kind", <<"Mango", "Zebra", "Apple">>)))>>)),
+    UMango, UZebra, UApple>>, FALSE)
+>>
+
 DefCatalogue ==
   DFixedList
   \o [i \in 1..(Len(DefLeaves) * Len(DefPositions)) |->
         DEntry(DefLeaves[((i - 1) \div Len(DefPositions)) + 1], DefPositions[((i - 1) % Len(DefPositions)) + 1])]
+  \o DFixedList2
 
 InDef(i)   == i > IdBase /\ (i - IdBase) \in DOMAIN DefCatalogue
 EntryOf(i) == IF InDef(i) THEN DefCatalogue[i - IdBase] ELSE Catalogue[i]
